@@ -385,8 +385,12 @@ func C18(c *fw.Ctx) {
 		inner := []func() []*model.N{
 			func() []*model.N { return []*model.N{model.Var("nm", model.Str("inner"))} },
 			func() []*model.N { return []*model.N{model.Fun("nm", nil, model.Return(model.Str("inner-fn")))} },
-			func() []*model.N { return []*model.N{model.VarList([]string{"other", "nm"}, []*model.N{num(1), model.Str("inner-list")})} },
-			func() []*model.N { return []*model.N{model.Fun("helper", nil, model.Return(num(1))), model.ExprS(model.Asg("nm", model.Str("assigned")))} },
+			func() []*model.N {
+				return []*model.N{model.VarList([]string{"other", "nm"}, []*model.N{num(1), model.Str("inner-list")})}
+			},
+			func() []*model.N {
+				return []*model.N{model.Fun("helper", nil, model.Return(num(1))), model.ExprS(model.Asg("nm", model.Str("assigned")))}
+			},
 		}
 		blocks := []func(body []*model.N) []*model.N{
 			func(b []*model.N) []*model.N {
